@@ -926,6 +926,18 @@ func (e *Exec) execInstrs(fr *frame, b *ssa.BasicBlock, i int, st *State) {
 		case *ssa.Jump:
 			e.execBlock(fr, b.Succs[0], b, st)
 			return
+		case *ssa.RunDefers:
+			if len(st.defers) == 0 {
+				continue
+			}
+			d := st.defers[len(st.defers)-1]
+			st.defers = append([]*ssa.Defer(nil), st.defers[:len(st.defers)-1]...)
+			idx := i
+			e.call(fr, d, st, func(st2 *State, res SV) {
+				// re-enter at the same RunDefers until the stack is empty
+				e.execInstrs(fr, b, idx, st2)
+			})
+			return
 		case *ssa.Return:
 			var res []SV
 			for _, r := range x.Results {
@@ -944,9 +956,14 @@ func (e *Exec) execInstrs(fr *frame, b *ssa.BasicBlock, i int, st *State) {
 				e.forbidden(fr, st, in, "go")
 				return
 			}
-			if _, isDefer := in.(*ssa.Defer); isDefer {
-				e.forbidden(fr, st, in, "defer")
-				return
+			if d, isDefer := in.(*ssa.Defer); isDefer {
+				if e.hooks != nil {
+					e.forbidden(fr, st, in, "defer")
+					return
+				}
+				// deferred call: runs at the function's exits (LIFO); its operands are SSA values
+				st.defers = append(st.defers, d)
+				continue
 			}
 			idx := i
 			e.call(fr, x, st, func(st2 *State, res SV) {
